@@ -29,6 +29,8 @@ type SkipStep struct {
 	Flags  []string `json:"flags,omitempty"`
 	Nested bool     `json:"nested,omitempty"`
 	Via    string   `json:"via,omitempty"` // "": by name; "default": bare spok (task 0 is called default)
+	// Elsewhere: run from a directory outside the project with --spokfile <project>/spokfile
+	Elsewhere bool `json:"elsewhere,omitempty"`
 }
 
 var skipFiles = []string{"in.txt", "src/a.go", "src/b.go", "data.json"}
@@ -54,6 +56,9 @@ func genSkip(t *rapid.T) SkipCase {
 			continue
 		}
 		st := SkipStep{Flags: rapid.SampledFrom(skipFlagSets).Draw(t, "flags"), Nested: rapid.IntRange(0, 2).Draw(t, "nested") == 0}
+		if rapid.IntRange(0, 4).Draw(t, "elsewhere") == 0 {
+			st.Elsewhere, st.Nested = true, false
+		}
 		if useDefault {
 			st.Via = "default"
 		}
@@ -112,6 +117,9 @@ func execSkip(id string, s *ev.Shard, b *sandbox.Box, c SkipCase) *rp.Fail {
 	if err := writeProject(b, b.Proj, files); err != nil {
 		return &rp.Fail{Sig: "harness", Msg: err.Error()}
 	}
+	if err := writeProject(b, b.Home, map[string]string{"elsewhere/": ""}); err != nil {
+		return &rp.Fail{Sig: "harness", Msg: err.Error()}
+	}
 	logPath := filepath.Join(b.Home, "run.log")
 	env := []string{"LOG=" + logPath}
 	size := c.NTasks + len(c.Deps) + 2*len(c.Steps)
@@ -153,12 +161,16 @@ func execSkip(id string, s *ev.Shard, b *sandbox.Box, c SkipCase) *rp.Fail {
 			cwd = filepath.Join(b.Proj, "nested", "dir")
 		}
 		args := append([]string(nil), st.Flags...)
+		if st.Elsewhere {
+			cwd = filepath.Join(b.Home, "elsewhere")
+			args = append(args, "--spokfile", filepath.Join(b.Proj, "spokfile"))
+		}
 		if st.Via != "default" {
 			args = append(args, c.name(0))
 		}
 		r := b.Run(cwd, env, runTimeout, args...)
 		log := readLog(logPath)
-		desc := fmt.Sprintf("spokfile:\n%sstep %d of %+v: `spok %s` from %s (exit %d, log %v)", src, si, c.Steps, strings.Join(args, " "), map[bool]string{true: "nested/dir", false: "the project root"}[st.Nested], r.Exit, log)
+		desc := fmt.Sprintf("spokfile:\n%sstep %d of %+v: `spok %s` from %s (exit %d, log %v)", src, si, c.Steps, strings.Join(args, " "), map[bool]string{true: "nested/dir", false: map[bool]string{true: "another directory with --spokfile", false: "the project root"}[st.Elsewhere]}[st.Nested], r.Exit, log)
 		if r.Exit != 0 {
 			return &rp.Fail{Sig: "valid-run-failed", Size: size, Msg: desc + ": " + sandbox.Strip(r.Stderr)}
 		}
